@@ -642,6 +642,9 @@ func (r *run) teardown() {
 
 // Run executes one scenario and returns its trace.
 func Run(sc *Script) []trace.Event {
+	if sc.Kind == "pool" {
+		return RunPool(sc)
+	}
 	r, nc, err := setup(sc)
 	vs := map[string]interface{}{}
 	for k, v := range sc.Versions {
